@@ -9,6 +9,9 @@
  * "ok" (exit 0).  One line is appended to LOGFILE per invocation.
  * "sleepif=TOKEN:MS" delays the answer by MS milliseconds when TOKEN is
  * PRESENT in the file (a slow golden run without slow candidates).
+ * "allocaccept=1": the accepting behaviour is to allocate until failure
+ * (exit 3; exit 4 if 1.5 GB could be had): a failure that IS the exhaustion
+ * of the memory limit.
  * "killaccept=1": the accepting behaviour is to die from SIGKILL (an
  * out-of-memory kill, a watchdog): exit status -9, no output.
  */
@@ -56,6 +59,7 @@ int main(int argc, char **argv) {
   text[sz] = 0; fclose(f);
   int keep_ok = 1;
   int killaccept = 0;
+  int allocaccept = 0;
   const char *fault = NULL;
   char *save1;
   for (char *part = strtok_r(spec, ";", &save1); part; part = strtok_r(NULL, ";", &save1)) {
@@ -63,6 +67,7 @@ int main(int argc, char **argv) {
     if (!eq) continue;
     *eq = 0;
     if (strcmp(part, "killaccept") == 0) { killaccept = 1; continue; }
+    if (strcmp(part, "allocaccept") == 0) { allocaccept = 1; continue; }
     if (strcmp(part, "sleepif") == 0) {
       char *colon = strchr(eq + 1, ':');
       if (colon) {
@@ -114,6 +119,10 @@ int main(int argc, char **argv) {
     logline(logf, keep_ok ? "accept" : "reject");
   }
   if (keep_ok && killaccept) { raise(SIGKILL); sleep(5); }
+  if (keep_ok && allocaccept) {
+    for (int i = 0; i < 1536; i++) { char *p = malloc(1 << 20); if (!p) { return 3; } memset(p, 1, 1 << 20); }
+    return 4;
+  }
   if (keep_ok) { printf("bug\n"); fflush(stdout); return 1; }
   printf("ok\n"); fflush(stdout); return 0;
 }
